@@ -29,10 +29,12 @@ static std::atomic_flag g_ftx_lock = ATOMIC_FLAG_INIT;   // protects BLOCKED->HO
 static void ftx_lock() { while (g_ftx_lock.test_and_set(std::memory_order_acquire)) { } }
 static void ftx_unlock() { g_ftx_lock.clear(std::memory_order_release); }
 
+static const char* g_rng_lo = nullptr; static const char* g_rng_hi = nullptr;
 void track(const void* a) { if (g_ntracked < 256) g_tracked[g_ntracked++] = a; }
-void untrack_all() { g_ntracked = 0; }
+void track_range(const void* lo, const void* hi) { g_rng_lo = (const char*)lo; g_rng_hi = (const char*)hi; }
+void untrack_all() { g_ntracked = 0; g_rng_lo = g_rng_hi = nullptr; }
 void focus_only(bool on) { g_focus = on; }
-bool is_tracked(const void* a) { for (int i = 0; i < g_ntracked; i++) if (g_tracked[i] == a) return true; return false; }
+bool is_tracked(const void* a) { if ((const char*)a >= g_rng_lo && (const char*)a < g_rng_hi) return true; for (int i = 0; i < g_ntracked; i++) if (g_tracked[i] == a) return true; return false; }
 bool self_is_daemon() { return tls_lt && tls_lt->daemon; }
 int self_id() { return tls_lt ? tls_lt->id : -1; }
 int num_blocked() { int c = 0; if (g_sched) for (auto* lt : g_sched->lts) if (lt->state.load() == ST_BLOCKED) ++c; return c; }
